@@ -639,7 +639,8 @@ def apply_model(sym, n, f, vals, mut_idx, st):
     # std::mem::replace(&mut place, v) / take(&mut place): the old value is returned, the place now holds v / Default
     if p in ("std::mem::replace", "std::mem::take") and vals and vals[0][0] == "place" and n.get("args"):
         pl = sym.place_of(n["args"][0], st)
-        if pl is not None and not (len(pl) > 3 and pl[3] is not None):
+        threaded_ = pl is not None and len(pl) > 3 and pl[3] is not None and sym.thread_places and pl[3][0] == "place"
+        if pl is not None and (not (len(pl) > 3 and pl[3] is not None) or threaded_):
             old = None
             for s2, (k2, v2) in sym.ev(strip_mut(n["args"][0]), st):
                 if k2 == VAL:
